@@ -521,6 +521,9 @@ class Exec(object):
         except Exception as e:
             r = (EXC, type(e).__name__)
             self.last_exc = e
+            # delete(query) deletes object by object: when it is refused midway the objects before stay deleted
+            # (no atomicity is promised for a multi-object delete), so nothing assigned earlier is certain any more
+            if op[0] in ('bulkdel', 'qdel'): self.__dict__.setdefault('facts', {}).clear()
             self._after_exception()
         finally:
             guard()
